@@ -83,6 +83,7 @@ impl From<&BoundColumnDef> for Column {
             .default
             .as_ref()
             .and_then(|expr| eval_literal_expr(expr))
+            .and_then(|dt: DataType| dt.try_cast(value.data_type).ok())
             .and_then(|dt: DataType| dt.serialize().ok());
 
         col
